@@ -329,10 +329,22 @@ func perSampleGraphs(e *emitter) []perSample {
 			{Op: "MatMul", Ins: []string{"t", "x"}, Outs: []string{"mm"}},
 		}, Outputs: []string{"t", "sl", "ga", "cc", "ex", "rm", "am", "ab", "lt", "mm"}},
 		[]BatchIn{{"x", []int{0, 2, 3}, 0}}})
+	// matrix products with the weight on the LEFT of a stack of per-sample matrices, and a vector times the stack
+	out = append(out, perSample{"matmul-left-weight", &GraphJ{
+		Inputs: []VInfoJ{{Name: "x", Dt: "f32", Dims: []any{"N", 3, 2}}},
+		Inits:  []InitJ{{Name: "wl", T: tinyT("f32", []int{2, 3}, 3)}, {Name: "v", T: tinyT("f32", []int{3}, 4)}, {Name: "wr", T: tinyT("f32", []int{2, 4}, 5)}, {Name: "w4", T: tinyT("f32", []int{1, 4, 3}, 6)}},
+		Nodes: []NodeJ{
+			{Op: "MatMul", Ins: []string{"wl", "x"}, Outs: []string{"lx"}},
+			{Op: "MatMul", Ins: []string{"v", "x"}, Outs: []string{"vx"}},
+			{Op: "MatMul", Ins: []string{"x", "wr"}, Outs: []string{"xr"}},
+			{Op: "MatMul", Ins: []string{"w4", "x"}, Outs: []string{"w4x"}},
+			{Op: "MatMul", Ins: []string{"lx", "wr"}, Outs: []string{"chain"}},
+		}, Outputs: []string{"lx", "vx", "xr", "w4x", "chain"}},
+		[]BatchIn{{"x", []int{0, 3, 2}, 0}}})
 	// recurrent operators: batch is axis 1 of X and of the states
-	for _, op := range []string{"RNN", "GRU", "LSTM", "GRU-lbr"} {
-		G := map[string]int{"LSTM": 4, "GRU": 3, "RNN": 1, "GRU-lbr": 3}[op]
-		acts := make([]string, map[string]int{"LSTM": 3, "GRU": 2, "RNN": 1, "GRU-lbr": 2}[op])
+	for _, op := range []string{"RNN", "GRU", "LSTM", "GRU-lbr", "LSTM-peep"} {
+		G := map[string]int{"LSTM": 4, "GRU": 3, "RNN": 1, "GRU-lbr": 3, "LSTM-peep": 4}[op]
+		acts := make([]string, map[string]int{"LSTM": 3, "GRU": 2, "RNN": 1, "GRU-lbr": 2, "LSTM-peep": 3}[op])
 		for i := range acts {
 			acts[i] = "relu"
 		}
@@ -340,11 +352,14 @@ func perSampleGraphs(e *emitter) []perSample {
 		outs := []string{"Y", "Yh"}
 		vin := []VInfoJ{{Name: "x", Dt: "f32", Dims: []any{3, "N", 2}}, {Name: "h0", Dt: "f32", Dims: []any{1, "N", 2}}}
 		bins := []BatchIn{{"x", []int{3, 0, 2}, 1}, {"h0", []int{1, 0, 2}, 1}}
-		if op == "LSTM" {
+		if op == "LSTM" || op == "LSTM-peep" {
 			ins = append(ins, "c0")
 			outs = append(outs, "Yc")
 			vin = append(vin, VInfoJ{Name: "c0", Dt: "f32", Dims: []any{1, "N", 2}})
 			bins = append(bins, BatchIn{"c0", []int{1, 0, 2}, 1})
+		}
+		if op == "LSTM-peep" {
+			ins = append(ins, "P")
 		}
 		attrs := []Attr{{Name: "hidden_size", Type: "i", I: 2}, {Name: "activations", Type: "strings", Ss: acts}}
 		name := op
@@ -352,8 +367,11 @@ func perSampleGraphs(e *emitter) []perSample {
 			op = "GRU"
 			attrs = append(attrs, Attr{Name: "linear_before_reset", Type: "i", I: 1})
 		}
+		if op == "LSTM-peep" {
+			op = "LSTM"
+		}
 		out = append(out, perSample{"rec-" + name, &GraphJ{Inputs: vin,
-			Inits: []InitJ{{Name: "W", T: tinyT("f32", []int{1, G * 2, 2}, 7)}, {Name: "R", T: tinyT("f32", []int{1, G * 2, 2}, 8)}, {Name: "B", T: tinyT("f32", []int{1, 2 * G * 2}, 9)}},
+			Inits: []InitJ{{Name: "W", T: tinyT("f32", []int{1, G * 2, 2}, 7)}, {Name: "R", T: tinyT("f32", []int{1, G * 2, 2}, 8)}, {Name: "B", T: tinyT("f32", []int{1, 2 * G * 2}, 9)}, {Name: "P", T: vals("f32", []int{1, 6}, 1, -1, 2, 0, -2, 1)}},
 			Nodes: []NodeJ{{Op: op, Attrs: attrs, Ins: ins, Outs: outs}},
 			Outputs: outs}, bins})
 	}
